@@ -9,7 +9,7 @@ from wire import Obj
 PROP = "C20"
 MODULES = ["JV.Props.C20"]
 HARNESS = "th"
-FLAGS = ["-std=c++17", "-O1", "-g", "-fsanitize=thread", "-pthread", "-I/repo/include", "-I/verif/harness"]
+FLAGS = ["-std=c++17", "-O1", "-g", "-fsanitize=thread", "-pthread", "-I" + vlib.REPO + "/include", "-I" + vlib.ROOT + "/harness"]
 
 
 def oracle(line, impl, model, ref=None):
@@ -67,6 +67,16 @@ def lines(rng, scale):
     for _ in range(10 * scale):
         v = jpath.gen_doc(rng, 3)
         out.append("th json %d %d | %s" % (rng.choice([2, 4, 8, 16]), 3, wire.render(wire.sort_keys(v))))
+    # a document of doubles of every printing route (shortest-digits fast path, its fallback, exponent forms, non-finite), big numbers, byte
+    # strings and long strings: serialisation of a shared const value must not share scratch state between threads
+    import struct
+    dbl = lambda f: ("d", struct.unpack("<Q", struct.pack("<d", f))[0])
+    nums = [dbl(x) for x in (19515056767945592.0, 869293065448701.25, 0.0061387096022997995, 1e23, 5e-324, 1.7976931348623157e308, 0.1, 1.5, -2.5e-7, 123456789.125,
+                             9007199254740993.0, 2.2250738585072014e-308, 4.35, 1e21, 1e-7, 3.0e10)]
+    nums += [dbl(rng.uniform(-1, 1) * 10 ** rng.randint(-300, 300)) for _ in range(120)]
+    big = Obj([(b"big", wire.Tagged("bigint", b"123456789012345678901234567890")), (b"bytes", ("b", bytes(range(64)))), (b"nums", nums), (b"text", [b"long string " * 8] * 6)])
+    for th in (4, 8, 16):
+        out.append("th json %d %d | %s" % (th, 6 * scale, wire.render(big)))
     return out
 
 
